@@ -103,10 +103,12 @@ using namespace c08;
 
 static const dom::Alphabet& SIG() { static dom::Alphabet s = dom::Sigma2(); return s; }
 // four fixed operands: M0, M1 use states 0..1 (overlapping), M2, M3 use states 10..11 (overlapping each other, disjoint from M0/M1)
-static ref::TA fixedAut(int m) { ref::TA A; size_t b = m >= 2 ? 10 : 0;
+static const size_t SETFINAL_STATE[4] = {0, 10, 1, 11};
+static ref::TA fixedAut(int m) { ref::TA A; size_t b = (m == 2 || m == 3) ? 10 : 0;
   switch (m) { case 0: A.rules.insert({0, {}, b}); A.rules.insert({2, {b, b}, b + 1}); A.finals.insert(b + 1); break;
                case 1: A.rules.insert({1, {}, b}); A.rules.insert({2, {b, b}, b}); A.finals.insert(b); break;
                case 2: A.rules.insert({0, {}, b}); A.rules.insert({2, {b, b}, b + 1}); A.rules.insert({1, {}, b + 1}); A.finals.insert(b + 1); break;
+               case 4: A.rules.insert({0, {}, 0}); A.rules.insert({0, {}, 1}); A.rules.insert({2, {0, 1}, 1}); break;   // M4: nondeterministic, NO final state (states 0..1): copies get different final states by SetStateFinal
                default: A.rules.insert({1, {}, b}); A.rules.insert({2, {b, b}, b}); A.rules.insert({2, {b, b + 1}, b}); A.rules.insert({0, {}, b + 1}); A.finals.insert(b); }
   return A; }
 template <class Aut> static void loadFixed(Aut& x, int m) { ref::TA A = fixedAut(m); AutBase::StateDict sd; for (auto q : A.states()) sd.insert(std::make_pair("q" + std::to_string(q), q)); size_t fresh = 1000;
@@ -149,14 +151,16 @@ static std::vector<Op> buildMenu() { std::vector<Op> v;
   for (int i = 0; i < S; i++) for (int j = 0; j < S; j++) if (i != j) { v.push_back({COPY, i, j, 0, 0}); v.push_back({ASSIGN, i, j, 0, 0}); }
   for (K kd : {UNION, UDS, ISECT}) for (int i = 0; i < S; i++) for (int j = 0; j < S; j++) for (int k = 0; k < S; k++) v.push_back({kd, i, j, k, 0});
   for (K kd : {UNREACH, USELESS}) for (int i = 0; i < S; i++) for (int k = 0; k < S; k++) v.push_back({kd, i, 0, k, 0});
+  // appended in round 4 (earlier operation numbers keep their meaning): a fifth operand without final states and SetStateFinal of the second state of each numbering
+  for (int i = 0; i < S; i++) { v.push_back({LOAD, i, 0, 0, 4}); v.push_back({SETFINAL, i, 0, 0, 2}); v.push_back({SETFINAL, i, 0, 0, 3}); }
   return v; }
 static const std::vector<Op>& menu() { static std::vector<Op> m = buildMenu(); return m; }
 static const char* KN[] = {"load", "load-into", "copy", "assign", "destroy", "Union", "UnionDisjointStates", "Intersection", "RemoveUnreachableStates", "RemoveUselessStates", "GetTopDownAut", "SetStateFinal", "AddTransition"};
 static std::string opName(int x) { const Op& o = menu()[x]; char b[96];
   switch (o.kind) { case LOAD: snprintf(b, sizeof b, "s%d=load(M%d)", o.i, o.m); break; case LOADINTO: snprintf(b, sizeof b, "s%d.LoadFromString(M%d)", o.i, o.m); break; case COPY: snprintf(b, sizeof b, "s%d=copy(s%d)", o.j, o.i); break; case ASSIGN: snprintf(b, sizeof b, "s%d = s%d", o.j, o.i); break;
-    case DESTROY: snprintf(b, sizeof b, "destroy s%d", o.i); break; case TOPDOWN: snprintf(b, sizeof b, "s%d.GetTopDownAut()", o.i); break; case SETFINAL: snprintf(b, sizeof b, "s%d.SetStateFinal(%d)", o.i, o.m ? 10 : 0); break; case ADDTRANS: snprintf(b, sizeof b, "s%d.AddTransition(%s)", o.i, o.m == 0 ? "b->0" : o.m == 1 ? "g(0,0)->0" : o.m == 2 ? "b->10" : "g(10,10)->10"); break; case UNION: case UDS: case ISECT: snprintf(b, sizeof b, "s%d=%s(s%d,s%d)", o.k, KN[o.kind], o.i, o.j); break; default: snprintf(b, sizeof b, "s%d=s%d.%s()", o.k, o.i, KN[o.kind]); }
+    case DESTROY: snprintf(b, sizeof b, "destroy s%d", o.i); break; case TOPDOWN: snprintf(b, sizeof b, "s%d.GetTopDownAut()", o.i); break; case SETFINAL: snprintf(b, sizeof b, "s%d.SetStateFinal(%d)", o.i, (int)SETFINAL_STATE[o.m]); break; case ADDTRANS: snprintf(b, sizeof b, "s%d.AddTransition(%s)", o.i, o.m == 0 ? "b->0" : o.m == 1 ? "g(0,0)->0" : o.m == 2 ? "b->10" : "g(10,10)->10"); break; case UNION: case UDS: case ISECT: snprintf(b, sizeof b, "s%d=%s(s%d,s%d)", o.k, KN[o.kind], o.i, o.j); break; default: snprintf(b, sizeof b, "s%d=s%d.%s()", o.k, o.i, KN[o.kind]); }
   return b; }
-static std::string describe(const std::vector<int>& h) { std::string s; for (size_t i = 0; i < h.size(); i++) s += (i ? "; " : "") + opName(h[i]); return s + "   [M0: a->0 g(0,0)->1 F{1}; M1: b->0 g(0,0)->0 F{0}; M2: a->10 g(10,10)->11 b->11 F{11}; M3: b->10 g(10,10)->10 g(10,11)->10 a->11 F{10}]"; }
+static std::string describe(const std::vector<int>& h) { std::string s; for (size_t i = 0; i < h.size(); i++) s += (i ? "; " : "") + opName(h[i]); return s + "   [M0: a->0 g(0,0)->1 F{1}; M1: b->0 g(0,0)->0 F{0}; M2: a->10 g(10,10)->11 b->11 F{11}; M3: b->10 g(10,10)->10 g(10,11)->10 a->11 F{10}; M4: a->0 a->1 g(0,1)->1 F{}]"; }
 
 template <class Aut> struct Slot { std::unique_ptr<Aut> a; ref::TA m; };
 template <class Aut> static std::string keyOf(Slot<Aut>* s) { std::string k; std::map<const void*, int> ids; for (int i = 0; i < S; i++) { if (!s[i].a) { k += "dead||"; continue; } std::set<size_t> fin(s[i].a->GetFinalStates().begin(), s[i].a->GetFinalStates().end()); k += "F" + vs(fin) + tableKey(*s[i].a, ids) + "||"; } return k; }
@@ -178,7 +182,7 @@ template <class Aut> static hist::StepResult run(const std::vector<int>& h, Ctx&
       case TOPDOWN: if (!si.a || std::is_same<Aut, BDDTopDownTreeAut>::value) { en = false; break; } if (last) convCheck(*si.a, si.m, c); break;
       case ADDTRANS: if (!si.a) { en = false; break; } { size_t q = o.m >= 2 ? 10 : 0; if (!si.m.states().count(q)) { en = false; break; } bool bin = o.m & 1; auto tr = si.a->GetAlphabet()->GetSymbolTransl();
           typename Aut::SymbolType sy = (*tr)(bin ? "g" : "b"); typename Aut::StateTuple ch; if (bin) { ch.push_back(q); ch.push_back(q); } si.a->AddTransition(ch, sy, q); ref::Rule r; r.sym = bin ? 2 : 1; r.ch = std::vector<size_t>(ch.begin(), ch.end()); r.par = q; si.m.rules.insert(r); } break;
-      case SETFINAL: if (!si.a) { en = false; break; } { size_t q = o.m ? 10 : 0; if (!si.m.states().count(q)) { en = false; break; } si.a->SetStateFinal(q); si.m.finals.insert(q); } break;
+      case SETFINAL: if (!si.a) { en = false; break; } { size_t q = SETFINAL_STATE[o.m]; if (!si.m.states().count(q)) { en = false; break; } si.a->SetStateFinal(q); si.m.finals.insert(q); } break;
       case UNION: if (!si.a || !sj.a) { en = false; break; } { ref::TA a = si.m, b = sj.m; ref::TA v = store(sk, Aut::Union(*si.a, *sj.a)); sem(ref::equalLang(v, ref::disjointUnion(a, b)), "language_not_the_union", "result " + v.str(N)); } break;
       case UDS: if (!si.a || !sj.a) { en = false; break; } { ref::TA a = si.m, b = sj.m; bool disj = true; for (auto q : a.states()) if (b.states().count(q)) disj = false; if (!disj) { en = false; break; } ref::TA v = store(sk, Aut::UnionDisjointStates(*si.a, *sj.a)); sem(ref::equalLang(v, ref::plainUnion(a, b)), "language_not_the_union", "result " + v.str(N)); } break;
       case ISECT: if (!si.a || !sj.a) { en = false; break; } { ref::TA a = si.m, b = sj.m; ref::TA v = store(sk, Aut::Intersection(*si.a, *sj.a)); sem(ref::equalLang(v, ref::product(a, b)), "language_not_the_intersection", "result " + v.str(N)); } break;
@@ -202,7 +206,7 @@ static int findOp(K kind, int i, int j, int k, int m) { for (size_t x = 0; x < m
 //   1: s0=load(M0); s1=copy(s0)      2: s0=load(M3); s1=copy(s0); s2=load(M1)
 template <class Aut> static void body(Env& env, const std::string& stage, int depth, uint64_t budget, int seeded = 0, bool inclObs = false) {
   g_inclObs = inclObs; hist::Spec sp; sp.stage = stage; sp.menuSize = (int)menu().size(); sp.maxDepth = depth; sp.stateBudget = budget; sp.caseTimeout = 60; bool verbose = !env.replayArg.empty();
-  std::vector<int> prefix; if (seeded == 1) prefix = {findOp(LOAD, 0, 0, 0, 0), findOp(COPY, 0, 1, 0, 0)}; if (seeded == 2) prefix = {findOp(LOAD, 0, 0, 0, 3), findOp(COPY, 0, 1, 0, 0), findOp(LOAD, 2, 0, 0, 1)};
+  std::vector<int> prefix; if (seeded == 1) prefix = {findOp(LOAD, 0, 0, 0, 0), findOp(COPY, 0, 1, 0, 0)}; if (seeded == 2) prefix = {findOp(LOAD, 0, 0, 0, 3), findOp(COPY, 0, 1, 0, 0), findOp(LOAD, 2, 0, 0, 1)}; if (seeded == 3) prefix = {findOp(LOAD, 0, 0, 0, 4), findOp(COPY, 0, 1, 0, 0)};
   sp.run = [verbose, prefix](const std::vector<int>& h, Ctx& c) { std::vector<int> full = prefix; full.insert(full.end(), h.begin(), h.end()); hist::StepResult r = run<Aut>(full, c, verbose); if (h.empty()) r.prefixKey = ""; return r; };
   sp.describe = [prefix](const std::vector<int>& h) { std::vector<int> full = prefix; full.insert(full.end(), h.begin(), h.end()); return (prefix.empty() ? "" : "[from the seeded state] ") + describe(full); };
   hist::bfs(env, sp);
@@ -217,6 +221,10 @@ static Register h7("c08.hist.bu.seeded1.d3", "C08", "bdd-bu, BFS depth 3 from th
 static Register h8("c08.hist.bu.seeded2.d3", "C08", "bdd-bu, BFS depth 3 from the non-initial state s0=load(M3); s1=copy(s0); s2=load(M1)", [](Env& e) { body<BDDBottomUpTreeAut>(e, "c08.hist.bu.seeded2.d3", 3, 3000000, 2); });
 static Register h9("c08.hist.td.seeded1.d3", "C08", "bdd-td, BFS depth 3 from s0=load(M0); s1=copy(s0)", [](Env& e) { body<BDDTopDownTreeAut>(e, "c08.hist.td.seeded1.d3", 3, 3000000, 1); });
 static Register h10("c08.hist.td.seeded2.d3", "C08", "bdd-td, BFS depth 3 from s0=load(M3); s1=copy(s0); s2=load(M1)", [](Env& e) { body<BDDTopDownTreeAut>(e, "c08.hist.td.seeded2.d3", 3, 3000000, 2); });
+static Register h15("c08.hist.bu.seeded3.d3", "C08", "bdd-bu, BFS depth 3 from s0=load(M4); s1=copy(s0) (nondeterministic operand without final states: the copies get different final states)", [](Env& e) { body<BDDBottomUpTreeAut>(e, "c08.hist.bu.seeded3.d3", 3, 3000000, 3); });
+static Register h16("c08.hist.td.seeded3.d3", "C08", "bdd-td, BFS depth 3 from s0=load(M4); s1=copy(s0)", [](Env& e) { body<BDDTopDownTreeAut>(e, "c08.hist.td.seeded3.d3", 3, 3000000, 3); });
+static Register h17("c08.hist.bu.seeded3.d4", "C08", "bdd-bu, BFS depth 4 from s0=load(M4); s1=copy(s0)", [](Env& e) { body<BDDBottomUpTreeAut>(e, "c08.hist.bu.seeded3.d4", 4, 4000000, 3); });
+static Register h18("c08.hist.td.seeded3.d4", "C08", "bdd-td, BFS depth 4 from s0=load(M4); s1=copy(s0)", [](Env& e) { body<BDDTopDownTreeAut>(e, "c08.hist.td.seeded3.d4", 4, 4000000, 3); });
 static Register h11("c08.hist.bu.seeded1.d4", "C08", "bdd-bu, BFS depth 4 from s0=load(M0); s1=copy(s0)", [](Env& e) { body<BDDBottomUpTreeAut>(e, "c08.hist.bu.seeded1.d4", 4, 4000000, 1); });
 static Register h12("c08.hist.bu.seeded2.d4", "C08", "bdd-bu, BFS depth 4 from s0=load(M3); s1=copy(s0); s2=load(M1)", [](Env& e) { body<BDDBottomUpTreeAut>(e, "c08.hist.bu.seeded2.d4", 4, 4000000, 2); });
 static Register h13("c08.hist.td.seeded1.d4", "C08", "bdd-td, BFS depth 4 from s0=load(M0); s1=copy(s0)", [](Env& e) { body<BDDTopDownTreeAut>(e, "c08.hist.td.seeded1.d4", 4, 4000000, 1); });
